@@ -36,6 +36,10 @@ ASSUMPTIONS = [
     "group keys have no dot and no leading '-' (finding class 6 otherwise: never generated, not listed)",
     "the add_argument styles are declared from the normal form of the field list under the documented signature rules "
     "(Optional without default -> default None, default None -> Optional[T], non-required '_' names not offered)",
+    "no config gives an UNDECLARED key an empty mapping (since fix a58b0fc such a key is rejected unless it names an "
+    "argument group; the signature styles register the raw group key, e.g. 'my-g', as a group name, so "
+    "parse_object({'my-g': {}}) is accepted by the dataclass / class styles and rejected by the dotted / inner-parser "
+    "styles: a residual difference that the two-level table model (no group names) does not cover; see notes/C07.md)",
     "the top-level 'cfg' entry of the result (list of config paths) is the same in all styles and is not compared",
     "exception classes and message texts are not compared (accept / reject / exit / other)",
 ]
@@ -44,6 +48,7 @@ FINDING_CLASSES = {
     1: "dotted-whole-group-argv",
     2: "dotted-whole-group-env",
     3: "dotted-group-key-string-or-null",
+    4: "group-key-scalar",
     5: "inner-hyphen-required",
 }
 # "judge" follows the tree (faithful model of the unchanged tree, else the model of the tree repaired by
@@ -202,7 +207,8 @@ def gen_config(rng, gk, fs, complete):
     elif r < 0.95:
         d = {g: group_dict(rng, fs, complete), rng.choice(["zz", "top"]): 1}
     else:
-        d = {gk: group_dict(rng, fs, complete)} if gk != g else {g: {}}
+        # the group key spelled with its hyphen is an unknown key; never with an EMPTY mapping (see ASSUMPTIONS)
+        d = {gk: dict(group_dict(rng, fs, complete), zz=1)} if gk != g else {g: {}}
     return d
 
 
@@ -284,10 +290,14 @@ FIXED = [
       {"env": {"APP_G": "{\"a\": 7}"}, "kind": "args", "args": []},
       {"env": {}, "kind": "obj", "obj": {"g": "{\"a\": 2}"}},
       {"env": {}, "kind": "obj", "obj": {"g": None}},
+      {"env": {}, "kind": "obj", "obj": {"g": 5}},
       {"env": {}, "kind": "args", "args": [["--g.a", "4"], ["--g.b", "z"]]}]),
     ("g", [["a", "int", {"v": 1}]], [{"env": {}, "kind": "args", "args": [["--g", "5"]]}]),
     ("g", [["b", ["opt", "int"], {"nd": 1}], ["c", "str", {"v": None}], ["_p", "int", {"v": 1}]],
      [{"env": {}, "kind": "args", "args": []}, {"env": {}, "kind": "args", "args": [["--g.b", "1"], ["--g.c", "null"]]}]),
+    # a private Optional parameter without default is kept by the signature rules (fix 2f69862)
+    ("g", [["_p", ["opt", "int"], {"nd": 1}], ["a", "int", {"v": 1}]],
+     [{"env": {}, "kind": "args", "args": []}, {"env": {}, "kind": "args", "args": [["--g._p", "3"]]}]),
     ("my-g", [["f", "int", {"nd": 1}], ["a", "int", {"v": 1}]],
      [{"env": {}, "kind": "args", "args": [["--my-g.f", "2"]]}, {"env": {}, "kind": "obj", "obj": {"my_g": {"f": 2}}}]),
 ]
@@ -510,7 +520,7 @@ def addresses_group(case):
         return True
 
     def in_cfg(d):
-        return isinstance(d, dict) and any(k == g and (v is None or isinstance(v, str)) for k, v in d.items())
+        return isinstance(d, dict) and any(k == g and not isinstance(v, dict) for k, v in d.items())
 
     def in_text(t):
         import yaml
@@ -593,9 +603,10 @@ META = {
         "plus the group's _ActionConfigLoad row), C07_equiv_tables_same_parse (any leaf table and the same table "
         "with the load row answer every guarded input identically: a simulation through defaults, environment, "
         "argv, config merge, validation and dump with an invariant), and C07_signature_rules_normal_form / "
-        "C07_norm_idempotent (the signature styles see a field list only through the documented rules' normal form). "
-        "Outside the guard the property fails on the faithful model: six ..._refuted theorems (kernel-evaluated "
-        "witnesses) for the four listed findings; C07_four_styles_agree_fixed is the statement for the tree repaired "
+        "C07_norm_idempotent (for lists without private names the signature styles see a field list only through the "
+        "documented rules' normal form). "
+        "Outside the guard the property fails on the faithful model: seven ..._refuted theorems (kernel-evaluated "
+        "witnesses) for the five listed findings; C07_four_styles_agree_fixed is the statement for the tree repaired "
         "by fixes/C07-inner-hyphen-required.patch. Models are tied to the real code per case inside Coq: the four "
         "real parsers' _actions/required_args against the model compilers (table cases) and the four real parsers' "
         "answers (as_dict / rejection / dump) against the model run (run cases)."),
@@ -608,7 +619,9 @@ META = {
         "int/str/bool/Optional/List and the YAML/JSON loaders enter as observed finite tables (theorems hold for any "
         "loaders). Dump TEXT equality, exception classes and help output are compared on observations only; "
         "instantiate_classes, group titles, positional/ActionYesNo/subclass-typed fields, nested groups below the "
-        "group and config FILE paths are outside the statement. Trusted: Coq kernel/VM, the runner "
+        "group, config FILE paths and empty mappings for undeclared keys (group NAMES are not in the table model: "
+        "parse_object({'my-g': {}}) differs between styles, see notes/C07.md) are outside the statement. Trusted: "
+        "Coq kernel/VM, the runner "
         "tie/impl/c07_styles.py and the Gallina printer, the hand-written models. No axioms."),
     "technique": ("Rocq proof: compilers-to-table equalities by induction on the field list + a simulation proof "
                   "(invariant carried through every parser stage) lifting table equivalence to all inputs; "
